@@ -372,6 +372,23 @@ def run_snapshot(prog):
         res.oblige(False)
         res.viol("snapshot", f.loc, "the flag is no longer computed from two states.len() reads (snapshot and end of the function)")
         return res
+    # the comparison itself: any difference counts. Everything that touches the states after the read *removes* them
+    # (macro cancel on release, override release-on-activation), so `>` ("more states than before") never fires
+    cmpop = None
+    if rv["k"] == "bin":
+        cmpop = rv.get("op")
+    elif rv["k"] == "use" and is_place(rv["a"]) and not proj(rv["a"]):
+        d0 = f.single_def(rv["a"]["l"])
+        if d0 and d0[2] == "assign" and d0[3]["k"] == "bin":
+            cmpop = d0[3].get("op")
+    okc = cmpop in ("Ne", "Eq", None)
+    res.inst("comparison", where="%s:%s" % (f.file, f.line_of(bi, si)), operator=cmpop, ok=okc)
+    res.oblige(okc)
+    if not okc:
+        res.viol("comparison", "%s:%s" % (f.file, f.line_of(bi, si)),
+                 "keystate_changed_after_read is computed with `%s` instead of an inequality test: the handlers that run after the keys "
+                 "were read only remove states (macro cancel on release, override release-on-activation), so a shrink is the case that "
+                 "matters; it is not noticed, is_idle becomes true with an output key still down and the loop blocks" % cmpop)
     sb, stt = snap
     rb = reads[0]
     # calls between keycodes() and the snapshot that can touch the layout (take &mut of it / of self)
@@ -469,6 +486,35 @@ def run_idle_counter(prog):
         res.viol("anchor/consumers", "src/kanata/mod.rs", "the comparisons of ticks_since_idle (on-idle actions, reload fallback) were not found (%d)" % len(consumers))
         return res
     GUARDS = ("waiting_for_idle", "live_reload_requested")
+    # each guard alone makes the counter count: with kanata idle and only this consumer waiting, the increment is reached
+    from kq.analysis import reach_with_oracle
+    from kq.gf2 import root_desc
+
+    def oracle_for(guard):
+        def oracle(kind, x):
+            if kind == "field":
+                pf = proj_fields(x)
+                if pf and pf[-1][0] == KAN and pf[-1][2] == "live_reload_requested":
+                    return 1 if guard == "live_reload_requested" else 0
+                return None
+            cn = (callee_name(x) or "")
+            if cn.endswith("Kanata::is_idle"):
+                return 1
+            if cn.split("::")[-1] == "is_empty" and x["args"] and (root_desc(g, x["args"][0]) or "").endswith(".waiting_for_idle"):
+                return 0 if guard == "waiting_for_idle" else 1
+            return None
+        return oracle
+    for guard in GUARDS:
+        reach = reach_with_oracle(g, oracle_for(guard))
+        ok = inc in reach
+        res.inst("counts-for/" + guard, where="%s:%s" % (g.file, g.line_of(inc)), ok=ok)
+        res.oblige(ok)
+        if not ok:
+            res.viol("counts-for/" + guard, "%s:%s" % (g.file, g.line_of(inc)),
+                     "with kanata idle and only `%s` set (the other consumer of the idle counter not waiting), the increment of "
+                     "ticks_since_idle is not reached: the condition combines the consumers so that one of them alone no longer makes the "
+                     "counter advance (`&&` for `||`?) - a requested live reload with a key stuck down is never applied, or an on-idle "
+                     "action never fires" % guard)
     for f, bi, si in consumers:
         res.fn(f)
         dep = {f_ for (a, f_) in dependence_slice(f, bi)[0] if a == KAN}
@@ -494,3 +540,89 @@ def run_idle_counter(prog):
 def backward_slice_fields(f, o):
     from kq.analysis import backward_slice
     return backward_slice(f, o, maxdepth=12)
+
+
+def run_only(*adt_suffixes):
+    """R-IDLE restricted to the time-driven state of some structs: the properties about one-shot keys, macros, virtual keys
+    ... rely on the idle predicate seeing *their* pending state (the loop sleeps otherwise and their timers stop)."""
+    def rule(prog):
+        full = run(prog)
+        res = RuleResult("R-IDLE", full.clause + " (restricted to %s)" % ", ".join(adt_suffixes), floor=1)
+        res.functions = full.functions
+        res.notes = list(full.notes)
+        for i in full.instances:
+            if any(("::" + s + ".") in i["key"] or i["key"].startswith(s + ".") for s in adt_suffixes):
+                res.instances.append(i)
+                res.oblige(bool(i.get("covered") or i.get("exempt")))
+        for v in full.violations:
+            k = v["key"].split("|", 1)[-1]
+            if any(("::" + s + ".") in k or k.startswith(s + ".") for s in adt_suffixes):
+                res.violations.append(v)
+        return res
+    rule.__name__ = "run_only_" + "_".join(adt_suffixes)
+    return rule
+
+
+def run_zch_variant(prog):
+    """R-ZCH-IDLE (C07): zippychord reports idle only in the states in which its tick does nothing unconditionally.
+
+    `zchd_tick` matches on the enabled-state: in `WaitEnable` it counts `zchd_ticks_until_enabled` down on every tick and
+    re-enables zippychord at zero. `zchd_is_idle` must therefore be false in that state - otherwise the loop blocks, the
+    countdown stands still while nothing is typed, and after a pause longer than idle-reactivate-time the next chord is
+    still typed as plain keys. Rule: for every variant V of ZchEnabledState whose arm in zchd_tick stores to a field of
+    the state on every path through the arm, zchd_is_idle evaluated under V cannot reach anything but `false`
+    (reach_under_variant on both functions)."""
+    from kq.analysis import discr_switches, reach_under_variant
+    res = RuleResult("R-ZCH-IDLE", "zchd_is_idle is false in every state in which zchd_tick counts unconditionally", floor=1)
+    Z = "kanata_state_machine::kanata::output_logic::zippychord::"
+    tick = prog.fn_opt(Z + "ZchDynamicState::zchd_tick")
+    idle = prog.fn_opt(Z + "ZchDynamicState::zchd_is_idle")
+    ADT = Z + "ZchEnabledState"
+    if tick is None and idle is None and not any(n.startswith(Z) for n in prog.by_norm):
+        # the `zippychord` cargo feature is off in this build configuration: nothing to decide
+        res.inst("not-compiled", where="src/kanata/output_logic/zippychord.rs", ok=True)
+        return res
+    if tick is None or idle is None:
+        res.viol("anchor", "src/kanata/output_logic/zippychord.rs", "zchd_tick / zchd_is_idle not found")
+        return res
+    res.fn(tick)
+    res.fn(idle)
+    sws = [sw for sw in discr_switches(prog, tick, ADT)]
+    if not sws:
+        res.viol("anchor/match", tick.loc, "zchd_tick no longer matches on ZchEnabledState")
+        return res
+    sw = sws[0]
+    for v in prog.enum_variants(ADT).values():
+        tgt = sw.target(v)
+        region = sw.arm_region(v) if tgt is not None else set()
+        # the blocks every path through the arm passes: those of the region that dominate every exit edge of the region
+        exits = {b for b in region for s_ in tick.succs(b) if s_ not in region}
+        always = {b for b in region if exits and all(tick.dominates(b, e) for e in exits)}
+        stores = []
+        for b in sorted(always):
+            for si, st in enumerate(tick.stmts(b)):
+                if st["k"] == "assign" and proj(st["p"]) and any(isinstance(e, dict) and "f" in e for e in proj(st["p"])):
+                    stores.append(tick.line_of(b, si))
+        counts = bool(stores)
+        # can zchd_is_idle yield anything but a constant false under V?
+        r = reach_under_variant(prog, idle, ADT, v)
+        may_true = False
+        for b in r:
+            t = idle.term(b)
+            if t["k"] == "call" and not t.get("mac") and not (callee_name(t) or "").startswith("core::cmp::PartialEq") and "log" not in (callee_name(t) or "") \
+                    and "fmt" not in (callee_name(t) or "") and "::Arguments" not in (callee_name(t) or ""):
+                if (idle.local_ty(t["dest"]["l"]) or "") == "bool" and not proj(t["dest"]):
+                    may_true = True
+            for st in idle.stmts(b):
+                if st["k"] == "assign" and st["rv"]["k"] == "use" and isinstance(st["rv"]["a"], dict) and "c" in st["rv"]["a"] \
+                        and st["rv"]["a"]["c"].get("ty") == "bool" and st["rv"]["a"]["c"].get("v") == 1 and "mac" not in st:
+                    may_true = True
+        ok = not (counts and may_true)
+        res.inst("state/" + v, where=idle.loc, tick_counts_unconditionally=counts, idle_can_be_true=may_true, ok=ok)
+        res.oblige(ok)
+        if not ok:
+            res.viol("state/" + v, idle.loc,
+                     "in state %s zchd_tick updates the zippychord state on every tick (lines %s), but zchd_is_idle can be true in that state: "
+                     "kanata blocks, the countdown stands still until the next key event, and zippychord is not re-enabled after the "
+                     "configured idle time - the next chord is typed as plain keys" % (v, stores[:3]))
+    return res
